@@ -25,6 +25,22 @@ M1_RULE = ("operation sequences over {RegisterNode, RemoveNode, RegisterPipeline
            "unknown node types), the corpus, and every sequence of the reduced 13-symbol alphabet up to the tier's depth; a case is "
            "non-trivial when a RegisterPipeline or RemovePipelineAndNodes in it succeeded, distinct by its full op list")
 
+GATED_RUN = dict(
+    model="gated", sub="gated", driver="gated",
+    quick=["-n", "4000", "-depth", "4"],
+    thorough=["-n", "80000", "-depth", "6"],
+    search=["-n", "40000", "-depth", "5"],
+)
+GATED_ASSUME = [
+    "container/list and Go maps behave as specified; the harness injects the clock (NowFunc), a recording ComposeFrom and a recording Sender",
+    "events offered in one history carry pairwise distinct identities (the harness numbers them)",
+    "single-threaded histories; concurrent senders are covered by the lock-set check of C19 (Filter.l guards gated / orderedGated)",
+]
+GATED_RULE = ("histories over {Gateable event(id in 3 ids + empty id, flush?, clock advance incl. jumps that expire several groups), "
+              "non-Gateable event, FlushAll, Close} x Broker set/unset x injected failure (composition error / Gateable composite / send "
+              "error on a chosen group id), random up to 200 ops plus every sequence over a 9-symbol alphabet up to the tier's depth, "
+              "each followed by one probe flush event per id; a case is non-trivial when a group was sent or flushed, distinct by op list")
+
 PROPS = {
     "C05": dict(
         module="Evl.Props.C05",
@@ -56,4 +72,19 @@ PROPS = {
         assumptions=M1_ASSUME + ["with a failing node Broker.Reopen returns at the first failing graph in Go's map order: which other nodes are reached is not compared"],
         rule=M1_RULE,
     ),
+    "C11": dict(
+        module="Evl.Props.C11",
+        theorems=["Evl.C11.conservation_step", "Evl.C11.conservation", "Evl.C11.no_duplication", "Evl.C11.passthrough",
+                  "Evl.C11.no_id_rejected", "Evl.C11.never_gateable_via_broker", "Evl.C11.flush_trigger"],
+        runs=[GATED_RUN], oracle_prefixes=["C11"], models=["M6 Gated"],
+        trusted_base=TB_COMMON, assumptions=GATED_ASSUME + ["partial: the per-id grouping/arrival-order clause is checked on the implementation by the Go oracle and holds in the model by construction of addEvent; its Lean refinement theorem is not yet proved"],
+        rule=GATED_RULE,
+    ),
+    "C17": dict(
+        module="Evl.Props.C17",
+        theorems=["Evl.C17.process_expiry", "Evl.C17.bound", "Evl.C17.flushAll_empties", "Evl.C17.close_is_flushAll"],
+        runs=[GATED_RUN], oracle_prefixes=["C17"], models=["M6 Gated"],
+        trusted_base=TB_COMMON, assumptions=GATED_ASSUME, rule=GATED_RULE,
+    ),
 }
+NOT_CLAIMED = {}
